@@ -286,7 +286,7 @@ void Image::load(FILE* f) {
               this->data.as8[(y * this->width + x) * dest_stride + 3] = this->data.as8[y * this->width * src_stride + x + 1];
             }
           } else if (this->channel_width == 16) {
-            uint8_t v = this->data.as16[y * this->width * src_stride + x];
+            uint16_t v = this->data.as16[y * this->width * src_stride + x];
             this->data.as16[(y * this->width + x) * dest_stride + 0] = v;
             this->data.as16[(y * this->width + x) * dest_stride + 1] = v;
             this->data.as16[(y * this->width + x) * dest_stride + 2] = v;
@@ -294,7 +294,7 @@ void Image::load(FILE* f) {
               this->data.as16[(y * this->width + x) * dest_stride + 3] = this->data.as16[y * this->width * src_stride + x + 1];
             }
           } else if (this->channel_width == 32) {
-            uint8_t v = this->data.as32[y * this->width * src_stride + x];
+            uint32_t v = this->data.as32[y * this->width * src_stride + x];
             this->data.as32[(y * this->width + x) * dest_stride + 0] = v;
             this->data.as32[(y * this->width + x) * dest_stride + 1] = v;
             this->data.as32[(y * this->width + x) * dest_stride + 2] = v;
@@ -302,7 +302,7 @@ void Image::load(FILE* f) {
               this->data.as32[(y * this->width + x) * dest_stride + 3] = this->data.as32[y * this->width * src_stride + x + 1];
             }
           } else if (this->channel_width == 64) {
-            uint8_t v = this->data.as64[y * this->width * src_stride + x];
+            uint64_t v = this->data.as64[y * this->width * src_stride + x];
             this->data.as64[(y * this->width + x) * dest_stride + 0] = v;
             this->data.as64[(y * this->width + x) * dest_stride + 1] = v;
             this->data.as64[(y * this->width + x) * dest_stride + 2] = v;
